@@ -1,0 +1,11 @@
+//go:build verif
+
+package cache
+
+import "github.com/gofiber/fiber/v3/internal/memory"
+
+// VerifSetMemoryYield installs the scheduling-point callback of the internal memory storage
+// (verification harness only; the internal package cannot be imported from outside the module).
+func VerifSetMemoryYield(f func(key string)) {
+	memory.VerifYield = f
+}
